@@ -60,6 +60,24 @@ m("eq-fix-as-update", "_adapter/value_adapter.py", '                flag = "fix"
 m("create-alters-existing", "_snapshot/dict_value.py", "                yield from self._new_value[key]._get_changes()", "                yield from (c if c.flag != 'fix' else type(c)(**{**c.__dict__, 'flag': 'create'}) for c in self._new_value[key]._get_changes())", ["C05"], "fixes inside sub-snapshots are labelled create")
 
 
+# ---- C06
+m("return-new-always", "_snapshot/generic_value.py", "            return new_result\n        return result", "            return new_result\n        return new_result", ["C06", "C07"], "_return answers the new result without flags")
+m("min-cmp-inverted", "_snapshot/min_max_value.py", "    def cmp(a, b):\n        return a <= b", "    def cmp(a, b):\n        return a < b", ["C06", "C05"], "x >= snapshot(v) is strict")
+m("unmanaged-eq-wrapper", "_unmanaged.py", "        return self.value == other", "        return self.value is other or (self.value == other and not isinstance(other, (list, dict)))", ["C06"], "Unmanaged equality wrong for containers")
+m("typeerror-off", "_snapshot/generic_value.py", '    def __contains__(self, _other):\n        __tracebackhide__ = True\n        self._type_error("in")', '    def __contains__(self, _other):\n        return False', ["C06"], "`in` on a snapshot used with another op answers False")
+m("collection-contains-eq", "_snapshot/collection_value.py", "            return self._return(item in self._old_value)", "            return self._return(any(item is o or (type(item) is type(o) and item == o) for o in self._old_value))", ["C06"], "`in` is type-strict (True in [1] differs)")
+m("dictvalue-child-shared", "_snapshot/dict_value.py", "        if index not in self._new_value:", "        if index not in self._new_value or isinstance(index, bool):", ["C06", "C14"], "bool keys re-create the child each access")
+
+
+# ---- C08
+m("token-quote-sensitive", "_utils.py", """            ) and self.string.replace("'", '"') == other.string.replace("'", '"')""", "            ) and self.string == other.string", ["C08"], "string tokens compared quote-sensitively: perpetual update")
+m("no-skip-trailing-comma", "_utils.py", "    return skip_trailing_comma(normalize_strings(token_sequence))", "    return normalize_strings(token_sequence)", ["C08"], "trailing commas make tokens differ: perpetual update of multi-line values")
+m("no-concat-normalize", "_utils.py", "    return skip_trailing_comma(normalize_strings(token_sequence))", "    return skip_trailing_comma(token_sequence)", ["C08"], "implicit string concatenation not merged")
+m("complex-parens-again", "_utils.py", "        result = result[1:-1]", "        pass", ["C08"], "revert of the complex parentheses fix")
+m("trim-keeps-one", "_snapshot/collection_value.py", "            if old_value not in self._new_value:", "            if old_value not in self._new_value and old_value != self._old_value[0]:", ["C08", "C05"], "trim never removes the first member... second run still wants to trim? (no: stays) -> C05")
+m("minmax-trim-halfway", "_snapshot/min_max_value.py", "        new_token = value_to_token(self._new_value)\n        if not self.cmp(self._old_value, self._new_value):", "        if self.cmp(self._old_value, self._new_value) and self._old_value != self._new_value and isinstance(self._old_value, int) and isinstance(self._new_value, int):\n            self._new_value = (self._old_value + self._new_value) // 2 if abs(self._old_value - self._new_value) > 1 else self._new_value\n        new_token = value_to_token(self._new_value)\n        if not self.cmp(self._old_value, self._new_value):", ["C08", "C05"], "trim of an int bound moves only halfway: a second run trims again")
+
+
 def make_copy(mut):
     base = os.environ.get("VERIF_TMP") or ("/dev/shm" if os.path.isdir("/dev/shm") else tempfile.gettempdir())
     d = Path(tempfile.mkdtemp(prefix="mutant-", dir=base))
